@@ -110,7 +110,7 @@ func TestC01_OpSequences(t *testing.T) {
 				nt := n >= 2
 				c.CaseEnum(nt, "set:"+set.name, "outcome:"+res.St.String(), fmt.Sprintf("operators:%d", n))
 				if nt && code%97 == 0 {
-					c.Sample(cs)
+					c.Sample(cs.sample())
 				}
 				if r, f := runRenderCase(c, cs); f != "" {
 					c.Fail(t, failKind(r), cs, cs.Want, r, f)
@@ -197,7 +197,7 @@ func TestC01_UnaryPostfix(t *testing.T) {
 		cs := renderCase{Src: min, Src2: full, Data: data, Want: wantFromRes(res)}
 		c.CaseEnum(true, "outcome:"+res.St.String())
 		if i%41 == 0 {
-			c.Sample(cs)
+			c.Sample(cs.sample())
 		}
 		if r, f := runRenderCase(c, cs); f != "" {
 			c.Fail(t, failKind(r), cs, cs.Want, r, f)
@@ -275,7 +275,7 @@ func TestC01_RandomTrees(t *testing.T) {
 		}
 		c.Case(nt, min+"|"+mustJSON(env.D), classes...)
 		if nt {
-			c.Sample(cs)
+			c.Sample(cs.sample())
 		}
 		if r, f := runRenderCase(c, cs); f != "" {
 			c.Fail(rt, failKind(r), cs, cs.Want, r, f)
@@ -315,7 +315,7 @@ func TestC01_Assignment(t *testing.T) {
 		nt := nops >= 2 || kinds["bin2"] || kinds["bin3"] || kinds[tw.ETern]
 		c.Case(nt, src+"|"+mustJSON(env.D), "outcome:"+res.St.String(), "top:"+tree.Kind)
 		if nt {
-			c.Sample(cs)
+			c.Sample(cs.sample())
 		}
 		if r, f := runRenderCase(c, cs); f != "" {
 			c.Fail(rt, failKind(r), cs, cs.Want, r, f)
